@@ -242,36 +242,24 @@ def run(prog, chk):
             chk.ok("C13.e", f, "%s: would-block -> error 0, return -1" % nm, "%s:%s" % (f.file, f.line), "errno reset on the EWOULDBLOCK/EAGAIN edge", evals=2)
         else:
             chk.bad("C13.e", f, "would-block-not-mapped", "%s:%s" % (f.file, f.line), "%s must report EWOULDBLOCK/EAGAIN as -1 with the error set to 0 (the Server treats error 0 as retry)" % nm)
-    for f, what in ((w, "write"), (sfn(prog, P + "ClientImpl::read"), "read"), (run_, "drain arm")):
-        # switch on the result: case -1 with getLastError() == 0 -> retry path (no closing), else falls into case 0 -> closed
-        sw = [b for b in f.blocks.values() if b.get("tk") == "SwitchStmt" and b.get("cond") is not None and re.match(r"^(sent|received)$", fin.key(f, b["cond"]))]
-        tests = [b for b in f.blocks.values() if b.get("cond") is not None and re.search(r"Socket::getLastError\(\) == 0", fin.key(f, b["cond"]))]
-        ok = bool(sw) and bool(tests)
-        if ok:
-            swnode = sw[0].get("term")
-            inside = set(f.desc(swnode)) if swnode is not None else set()
-            closing = [i for i in q.calls(f) if re.search(r"_closingClients\.append|->onClosed\(\)", f.r(i)) and i in inside]
-            for t in tests:
-                tpos = (t["id"], len(t["el"]))
-                dom_case = any(a[0] == "case" and a[2] == -1 for a in fin.dominating_atoms(f, tpos))
-                retry_edge, err_edge = t["succ"][0], t["succ"][1]
-                # retry edge must not reach a closing action before leaving the switch arm; the error edge must
-                if not dom_case:
-                    ok = False
-                if err_edge is None or not any(f.find_path((err_edge, 0), {f.node_pos(c)}, after_src=False) is not None for c in closing):
-                    ok = False
-                if retry_edge is not None:
-                    # from the retry edge, a closing action reachable without passing the switch again would be wrong
-                    head = (sw[0]["id"], len(sw[0]["el"]))
-                    if any(f.find_path((retry_edge, 0), {f.node_pos(c)}, avoid={head}, after_src=False) is not None for c in closing):
-                        ok = False
-            zero_closed = any(f.blocks[s].get("label") is not None and f.nodes[f.blocks[s]["label"]].get("v") == 0 for b in sw for s in b["succ"] if s is not None)
-            ok = ok and zero_closed
-        if ok:
-            chk.ok("C13.e", f, "%s: (-1, error 0) retried, (-1, error) and 0 closed" % what, "%s:%s" % (f.file, f.line), "switch arms and getLastError() test", evals=3)
-        else:
+    from .server_common import io_outcomes
+    for f, what, prim in ((w, "write", "Socket::send"), (sfn(prog, P + "ClientImpl::read"), "read", "Socket::recv"), (run_, "drain arm", "Socket::send")):
+        tab = io_outcomes(f, prim)
+        want = {"would-block": False, "error": True, "closed": True, "partial": False}
+        if tab is None:
+            chk.bad("C13.e", f, "would-block-consumer:" + what.replace(" ", "-"), "%s:%s" % (f.file, f.line), "%s: the call to %s was not found" % (what, prim))
+            continue
+        und = [k for k, (c, end) in tab.items() if isinstance(end, str) and end.startswith("undetermined")]
+        wrong = [k for k in want if tab[k][0] != want[k]]
+        if und:
+            chk.bad("C13.e", f, "would-block-consumer:" + what.replace(" ", "-"), "%s:%s" % (f.file, f.line), "%s: a guard could not be evaluated for result classes %s (%s)" % (what, und, tab[und[0]][1]))
+        elif wrong:
+            k = wrong[0]
             chk.bad("C13.e", f, "would-block-consumer:" + what.replace(" ", "-"), "%s:%s" % (f.file, f.line),
-                    "%s must treat a send/recv result of -1 with error 0 as would-block (keep the data, no close) and -1 with an error or 0 as a closed connection" % what)
+                    "%s treats a %s result of %s as %s; (-1, error 0) is would-block (keep the data, no close), (-1, error) and 0 mean the connection is gone" % (
+                        what, prim, k, "closed" if tab[k][0] else "still open"))
+        else:
+            chk.ok("C13.e", f, "%s: (-1, error 0) retried, (-1, error) and 0 closed, partial results kept open" % what, "%s:%s" % (f.file, f.line), "decision table over 4 result classes (guard-directed walk)", evals=4)
     # ------------------------------------------------------------------ C13.f
     pst = [s for s in q.stores(w) if q.no_casts(w.r(s.lhs)) == "*postponed"]
     for s in pst:
